@@ -22,7 +22,7 @@ different histories of enable / disable / set_layers calls in turn) in this proc
 all of them and every bit position of key / nonce / ephemeral key must be set in 35-65 % of the samples; (plaintext) \
 encrypted archives (encrypt, compress+encrypt with incompressible data) whose names and contents are unique high-entropy \
 markers, incl. flushes and piece sizes around the cipher buffer and the chunk: no 16-byte window of any content and no \
-name may occur in the bytes after the header; (recipients) recipient sets of 1..5 and up to 400 x candidate key lists (a recipient key at \
+name may occur in the bytes after the header; (recipients) recipient sets of 1..5 and up to 400, some naming a recipient two or three times, x candidate key lists (a recipient key at \
 every position among decoys, decoys only, empty): the archive opens and reads iff the list holds a recipient key, else Err; in half of the cases the reader configuration \
 is taken back from the reader and must open a second archive for the same recipients. \
 Non-trivial = fresh: every pair; plaintext: archive with >= 2 chunks; recipients: key list of length >= 2. \
@@ -279,8 +279,22 @@ fn recipients(c: &RecipCase, st: &mut Stats) -> Result<(), String> {
     let keys = prog::keys_for(c.seed as u64, c.nrecip as usize, 0);
     let layers = if c.compress { 3 } else { 1 };
     let content = data::gen(DataClass::Text, c.seed as u64, 300);
+    // the recipient list may name a recipient more than once (a key present in two key files, two overlapping lists)
+    let mut publics = keys.publics.clone();
+    match c.seed % 5 {
+        0 => publics.push(keys.publics[0]),
+        1 => {
+            let dup = keys.publics[keys.publics.len() / 2];
+            publics.insert(0, dup);
+            publics.push(dup);
+        }
+        _ => {}
+    }
+    if publics.len() != keys.publics.len() {
+        st.label("recipient list with a repeated key");
+    }
     let bytes = {
-        let mut w = ArchiveWriter::from_config(Vec::new(), prog::writer_config(layers, 3, &keys.publics)).map_err(|e| format!("HARNESS: {e:?}"))?;
+        let mut w = ArchiveWriter::from_config(Vec::new(), prog::writer_config(layers, 3, &publics)).map_err(|e| format!("HARNESS: {e:?}"))?;
         w.add_file("secret", content.len() as u64, content.as_slice()).map_err(|e| format!("HARNESS: {e:?}"))?;
         w.finalize().map_err(|e| format!("HARNESS: {e:?}"))?;
         w.into_raw()
